@@ -301,7 +301,6 @@ def identify_mediators(
         for candidate in candidate_nodes.copy():
             if candidate in pruned_graph.get_descendants(confounder):
                 candidate_nodes.remove(candidate)
-                break
 
     return list(candidate_nodes)
 
